@@ -1,5 +1,5 @@
 //! unit: u09
-//! properties: C09
+//! properties: C09 C03
 //! note: narrow claim for C09 (holding back what depends on an unfinished monitor update): FundedChannel::monitor_updating_paused adds to what is held and never drops anything held earlier; monitor_updating_restored releases exactly the held forwards / failures / finalized claims and clears them, releases a revoke_and_ack or a commitment update only if one was held (none while the peer is disconnected) and clears the flags; on the ChainMonitor side an update whose persistence is in progress is recorded as pending, a completion removes exactly that update, and the final status of update_channel is Completed only if the persister completed and the channel is not post-close
 //! trusted: monitor_updating_paused is extracted whole; monitor_updating_restored, ChainMonitor::channel_monitor_updated and ChainMonitor::update_channel_internal are deep R15 slices (the statements named in the note); env: FundedChannel / ChannelContext are field skeletons; the held items are opaque; get_last_revoke_and_ack / get_last_commitment_update_for_send are external_body with unconstrained results; ChannelState is a two-flag skeleton (monitor update in progress, peer disconnected) with the macro-generated accessors' meaning; enum ChannelMonitorUpdateStatus extracted
 //! trusted: R15 (deep slices): the eight places in channel.rs where a FundedChannel increments latest_monitor_update_id and builds a ChannelMonitorUpdate (get_update_fulfill_htlc, splice_initial_commitment_signed, commitment_signed_update_monitor, revoke_and_ack, shutdown, maybe_promote_splice_funding, build_commitment_no_status_check, get_shutdown): the increment statement and the `update_id:` expression, verbatim; force_shutdown (id after the last unblocked update) and free_holding_cell_htlcs (id + 1, merged into the next update) are not sliced
@@ -49,7 +49,7 @@ impl FundedChannel {
     self.context.$f:ident.extend($w:ident);
 //@with
     vec_extend(&mut self.context.$f, $w);
-//@ensures P C09 pausing-for-a-monitor-update-adds-to-what-is-held-back-and-never-drops-anything-held-earlier
+//@ensures P C09,C03 pausing-for-a-monitor-update-adds-to-what-is-held-back-and-never-drops-anything-held-earlier
     final(self).context.monitor_pending_revoke_and_ack == (old(self).context.monitor_pending_revoke_and_ack || resend_raa),
     final(self).context.monitor_pending_commitment_signed == (old(self).context.monitor_pending_commitment_signed || resend_commitment),
     final(self).context.monitor_pending_channel_ready == (old(self).context.monitor_pending_channel_ready || resend_channel_ready),
@@ -81,7 +81,7 @@ impl FundedChannel {
 //@with
     requires_channel_manager_persistence = requires_channel_manager_persistence || $r;
 //@ret r
-//@ensures P C09 once-the-monitor-update-completed-exactly-the-held-forwards-failures-and-finalized-claims-are-handed-over-and-nothing-stays-held
+//@ensures P C09,C03 once-the-monitor-update-completed-exactly-the-held-forwards-failures-and-finalized-claims-are-handed-over-and-nothing-stays-held
     r.0@ == old(self).context.monitor_pending_forwards@, r.1@ == old(self).context.monitor_pending_failures@, r.2@ == old(self).context.monitor_pending_finalized_fulfills@,
     final(self).context.monitor_pending_forwards@.len() == 0, final(self).context.monitor_pending_failures@.len() == 0, final(self).context.monitor_pending_finalized_fulfills@.len() == 0,
 //@mutant held_failures_left_behind
